@@ -42,7 +42,7 @@ _COMMON_NAMES = INPLACE | COPY_METHODS | VIEW_METHODS | {'run', 'load', 'save', 
                                                           'open', 'start', 'join', 'get_results'}
 
 
-@dataclass
+@dataclass(eq=False)
 class Store:
     node: ast.AST
     roots: Set[str]
@@ -52,7 +52,7 @@ class Store:
     guarded: bool = False             # guarded lazy-initialisation idiom
 
 
-@dataclass
+@dataclass(eq=False)
 class FuncInfo:
     mi: ModuleInfo
     ci: Optional[ClassInfo]
@@ -90,8 +90,38 @@ class Effects:
         self._fixpoint()
 
     # ------------------------------------------------------------------ index
-    def _index(self) -> None:
+    def _all_functions_with_nested(self):
         for mi, ci, fn in self.model.all_functions():
+            yield mi, ci, fn, None
+            stack = [(fn, fn.name)]
+            while stack:
+                outer, path = stack.pop()
+                for n in ast.walk(outer):
+                    if n is outer:
+                        continue
+                    if isinstance(n, (ast.FunctionDef, ast.AsyncFunctionDef)) and self._direct_parent_func(outer, n):
+                        yield mi, ci, n, path
+                        stack.append((n, f'{path}.<locals>.{n.name}'))
+
+    @staticmethod
+    def _direct_parent_func(outer, inner) -> bool:
+        # inner is nested directly in outer (not inside another nested def)
+        for n in walk_no_nested(outer):
+            if n is inner:
+                return True
+        return False
+
+    def _index(self) -> None:
+        for mi, ci, fn, outer in self._all_functions_with_nested():
+            if outer is not None:
+                qual = (f'{ci.name}.' if ci else f'{mi.name}.') + f'{outer}.<locals>.{fn.name}'
+                fi = FuncInfo(mi, ci if (fn.args.args and fn.args.args[0].arg == 'self') else None, fn, qual)
+                a = fn.args
+                fi.params = [p.arg for p in a.posonlyargs + a.args] + ([a.vararg.arg] if a.vararg else []) \
+                    + [p.arg for p in a.kwonlyargs] + ([a.kwarg.arg] if a.kwarg else [])
+                self.funcs[f'{mi.name}:{qual}'] = fi
+                self.by_node[fn] = fi
+                continue
             qual = f'{ci.name}.{fn.name}' if ci else f'{mi.name}.{fn.name}'
             fi = FuncInfo(mi, ci, fn, qual)
             a = fn.args
@@ -285,8 +315,12 @@ class Effects:
                     return []
             classes = self.receiver_classes(fi, f.value, local_types)
             out: List[FuncInfo] = []
+            attr = f.attr
+            if attr.startswith('_get_undeformed_'):
+                # StabilizerCode.deform saves the class-level get_<x> under self._get_undeformed_<x>
+                attr = 'get_' + attr[len('_get_undeformed_'):]
             for c in classes:
-                for t in self.method_impls(c, f.attr):
+                for t in self.method_impls(c, attr):
                     if t not in out:
                         out.append(t)
             if out or classes:
